@@ -40,11 +40,13 @@ func c19op(h *hdrhist.Histogram, op *Sexp) (out string) {
 		// original afterwards must not change it, and it answers Max like the original did
 		imp := hdrhist.Import(h.Export())
 		t0, maxEq := imp.TotalCount(), imp.Max() == h.Max()
+		d0 := fmt.Sprint(imp.Distribution(), imp.Max(), imp.Min())
 		res := "ok"
 		if err := h.RecordValues(args[0].Int64(), args[1].Int64()); err != nil {
 			res = "err"
 		}
-		return fmt.Sprintf("%d,%d,%s/%s", t0, imp.TotalCount(), bit(maxEq), res)
+		same := fmt.Sprint(imp.Distribution(), imp.Max(), imp.Min()) == d0
+		return fmt.Sprintf("%d,%d,%s,%s/%s", t0, imp.TotalCount(), bit(maxEq), bit(same), res)
 	case "merge":
 		m := hdrhist.New(h.LowestTrackableValue(), h.HighestTrackableValue(), int(h.SignificantFigures()))
 		dropped := m.Merge(h)
